@@ -419,6 +419,12 @@ func restDecodeTimeout(timeout string) (time.Duration, error) {
 	if timeout == "" {
 		return 0, nil
 	}
+	if strings.ContainsFunc(timeout, func(r rune) bool {
+		return (r < '0' || r > '9') && r != '.' && r != 'e' && r != 'E' && r != '+' && r != '-'
+	}) {
+		// strconv.ParseFloat also accepts underscores, hex floats, "Inf" and "NaN"
+		return 0, fmt.Errorf("invalid timeout %q: must be a decimal number of seconds", timeout)
+	}
 	val, err := strconv.ParseFloat(timeout, 64)
 	if err != nil {
 		return 0, fmt.Errorf("invalid timeout %q: %w", timeout, err)
